@@ -19,8 +19,13 @@ def hourly_frame(tz="America/Chicago", with_ghi=False):
         # re-label the absolute instants as local wall-clock hours of `tz` (keeps DST days of that zone)
         df = df.tz_convert(tz)
         if with_ghi:
-            h = df.index.hour.values
-            df["ghi"] = np.clip(np.sin((h - 6) / 12 * np.pi), 0, None) * 800
+            # clear-sky bell times a slowly varying cloud factor (so that the value filled into a gap depends on WHICH
+            # lags/leads the interpolation uses)
+            h = df.index.hour.values + 0.5
+            rng = np.random.default_rng(7)
+            cloud = pd.Series(rng.uniform(0.35, 1.0, len(df)), index=df.index).rolling(9, min_periods=1, center=True).mean().values
+            df["ghi"] = (np.clip(np.cos(np.pi / 2 * (h - 12) / 6.5), 0, None) * 800 * cloud).round(1)
+            df["observed"] = (df["observed"] - 0.004 * df["ghi"]).round(3)
         _CACHE[key] = df
     return _CACHE[key].copy()
 
